@@ -65,9 +65,10 @@ ASSUMPTIONS = [
     'buffer_pages, flash_pages in 1..65535 as the 16-bit info reply fields allow',
     'the image is a bytes object (values 0..255) of length < 2^32, so that int((len-1)/page_size) computed in '
     'floating point equals integer division (checked by the tie on boundary values)',
-    'terminate_flashing_cb is not set; progress reporting has no effect on what is sent',
+    'the UI configuration is an input: progress_cb installed or not, terminate_flashing_cb absent or answering a given '
+    'sequence; error_cb is never read by cflib/bootloader; the callbacks themselves do not raise',
 ]
-PROVED = ('Twenty-six theorems (C12/Property.v), all closed under the global context. Single image: exact placement, '
+PROVED = ('Thirty theorems (C12/Property.v), all closed under the global context. Single image: exact placement, '
           'nothing outside its pages, no out-of-range command, other target untouched, refusal before any write, negative '
           'override raises before any flash-write, frame sizes, per-page loads exactly once in order, bounded retry then abort. '
           'Geometry: info packet decoded exactly, only a received matching packet is reported, at most six requests. nRF51 '
@@ -79,7 +80,10 @@ PROVED = ('Twenty-six theorems (C12/Property.v), all closed under the global con
           'runs); calls start in plan order; a target no call addresses is untouched; on every target nothing outside the '
           'union of the started calls\' page ranges changes; a stale cache across the reboot is refuted by a concrete '
           'witness. read_flash: a returned buffer equals the device page byte for byte for every page size and reply-loss '
-          'pattern, at most six requests per chunk.')
+          'pattern, at most six requests per chunk. UI callbacks: for every configuration of progress_cb / '
+          'terminate_flashing_cb the outcome (abort or completion), script position and frames equal those without callbacks, '
+          'or the run is terminated on a prefix of them when the terminate callback says so; whole plans are identical with '
+          'progress_cb; the raise-only-without-progress_cb variant is refuted.')
 NOT_PROVED = ('zip/manifest parsing (incl. the legacy manifest-v1 rule that adds the distro s110 binary), flash_full / '
               'start_bootloader / _get_boot_delay (need a firmware-side Crazyflie), deck flashing, reset/reconnect (played by '
               'the fake) are not modelled; final content when two selected images overlap on one target is not stated. Loss of buffer-load packets, a target whose real geometry differs from the reported one, and replies '
@@ -87,7 +91,7 @@ NOT_PROVED = ('zip/manifest parsing (incl. the legacy manifest-v1 rule that adds
               'the flush of the next) are outside the model; bytes of the last flash page beyond the image end take '
               'whatever the buffer held (inside the occupied range, allowed by the statement).')
 
-HEADER = ('From CF Require Import Common.Bytes C12.Model C12.Session C12.Plan.\nOpen Scope Z_scope.\n'
+HEADER = ('From CF Require Import Common.Bytes C12.Model C12.Session C12.Plan C12.Callbacks.\nOpen Scope Z_scope.\n'
           'Fixpoint zr (a : Z) (n : nat) : list Z := match n with O => [] | S k => a :: zr (a + 1) k end.\n'
           'Definition mem (n salt : Z) : list Z := map (fun a => ((a * 7 + salt) * 13 + a / 8) mod 251) (zr 0 (Z.to_nat n)).\n'
           'Definition dg1 (p b : Z) (l : list Z) : Z := fold_left (fun h v => (h * b + v + 1) mod p) l 7.\n'
@@ -115,7 +119,7 @@ HEADER = ('From CF Require Import Common.Bytes C12.Model C12.Session C12.Plan.\n
           'Definition fimg (n s1 s2 s3 : Z) : list Z := map (fun a => (((a * s1 + s2) * (a + s3)) / 7) mod 256) (zr 0 (Z.to_nat n)).\n')
 
 STM, NRF = 0xFF, 0xFE
-CODES = {0: 'Done', 1: 'Refused', 2: 'WriteFailed', 3: 'struct.error', 4: 'IndexError', 5: 'ZeroDivisionError'}
+CODES = {0: 'Done', 1: 'Refused', 2: 'WriteFailed', 3: 'struct.error', 4: 'IndexError', 5: 'ZeroDivisionError', 6: 'Terminated'}
 
 
 # ------------------------------------------------------------------------------------------------ running the real code
@@ -184,6 +188,7 @@ def run_impl(case, policy=None):
     name = {STM: 'stm32', NRF: 'nrf51'}[case['addr']]
     art = FlashArtifact(bytes(case['image']), ZT('cf2', name, 'fw', [], []), None)
     detail = ''
+    link.log = install_callbacks(bl, case.get('cb'))
     with contextlib.redirect_stdout(io.StringIO()):
         try:
             if case.get('override') is None:
@@ -204,9 +209,39 @@ def run_impl(case, policy=None):
                 code = 1
             elif type(e) is Exception and e.args == ():
                 code = 2
+            elif type(e) is Exception and e.args == ('Flashing terminated',):
+                code = 6
             else:
                 code, detail = 99, repr(e)
     return code, detail, link, tg
+
+
+def install_callbacks(bl, cb):
+    """cb: None or {'progress': bool, 'term': None | [bool, ...]} — the UI configuration (flash_full(progress_cb=...,
+    terminate_flash_cb=...), cfclient).  Returns the list the progress messages are classified into."""
+    log = []
+    cb = cb or {}
+
+    def progress(msg, pct):
+        int(pct)
+        if 'Starting...' in msg:
+            log.append(1)
+        elif 'Not enough space' in msg:
+            log.append(2)
+        elif 'Uploading buffer' in msg:
+            log.append(3)
+        elif 'Writing buffer' in msg:
+            log.append(4)
+        elif 'Error during flash operation' in msg:
+            log.append(5)
+        else:
+            log.append(9)
+    if cb.get('progress'):
+        bl.progress_cb = progress
+    if cb.get('term') is not None:
+        seq = list(cb['term'])
+        bl.terminate_flashing_cb = lambda: (seq.pop(0) if seq else False)
+    return log
 
 
 def impl_obs(case):
@@ -218,6 +253,7 @@ def impl_obs(case):
         out += list(t.buf) + list(t.flash) + [1 if t.oob else 0]
     for (h, d) in link.q:
         out += [h, len(d)] + list(d)
+    out += [len(link.log)] + list(link.log)
     return out, code, detail, link, tg
 
 
@@ -244,12 +280,14 @@ def model_term(case):
         assert fimg(*case['image_formula']) == list(case['image'])
     else:
         img = coqrun.zlist(case['image'])
-    return ('let r := internal_flash %d %d %d %d %d %s %s [%s] [%s] in '
-            'let tr := snd r in let q := snd (fst (fst r)) in '
-            '[outcome_code (fst (fst (fst r)))] ++ trace_obs tr ++ '
+    cb = case.get('cb') or {}
+    term = 'None' if cb.get('term') is None else '(Some [%s])' % '; '.join(coqrun.coq_bool(b) for b in cb['term'])
+    cfg = '(mkCb %s %s)' % (coqrun.coq_bool(bool(cb.get('progress'))), term)
+    return ('let \'(o, q, s, tr, lg) := internal_flash_cb false %s %d %d %d %d %d %s %s [%s] [%s] in '
+            '[ocb_code o] ++ trace_obs tr ++ '
             'concat (map (fun T => let T1 := deliver T tr in t_buf T1 ++ t_flash T1 ++ [if t_oob T1 then 1 else 0]) [%s]) '
-            '++ pkts_obs q'
-            % (case['addr'], me['ps'], me['bp'], me['fp'], me['sp'], ov, img,
+            '++ pkts_obs q ++ [zlen (map msg_code lg)] ++ map msg_code lg'
+            % (cfg, case['addr'], me['ps'], me['bp'], me['fp'], me['sp'], ov, img,
                '; '.join(_pkt(p) for p in case.get('queue', [])),
                '; '.join(_att(a) for a in case.get('script', [])), '; '.join(tgs)))
 
@@ -406,6 +444,11 @@ def gen_case(rng, big=False):
     if rng.random() < 0.25:
         queue = [rng.choice([ack(addr), ack(addr, 0, 3), rand_pkt(rng, addr)]) for _ in range(rng.randrange(1, 4))]
     c = {'targets': targets, 'addr': addr, 'image': image, 'override': override, 'script': script, 'queue': queue}
+    r = rng.random()
+    if r < 0.55:
+        c['cb'] = {'progress': rng.random() < 0.8,
+                   'term': None if rng.random() < 0.5 else
+                   [rng.random() < 0.15 for _ in range(rng.randrange(0, npg + 2))]}
     if image and (big or ln > 48 or rng.random() < 0.8):
         # long literal lists cost ~0.2 ms per numeral to parse in Coq: most images are given by a formula
         c['image_formula'] = [ln, rng.randrange(1, 1000), rng.randrange(1000), rng.randrange(1000)]
@@ -828,6 +871,7 @@ def run_plan_session(case):
             bl = Bootloader('radio://0/0/2M/E7E7E7E7E7')
             bl._cload.link = link
             bl.warm_booted = bool(case.get('warm'))
+            rec['log'] = install_callbacks(bl, case.get('cb'))
 
             def deck_stub(artifacts, targets, start_index, enable_console_log=False, boot_delay=0.0):
                 rec['deck_calls'].append(([bytes(a.content) for a in artifacts], [tuple(t[:3]) for t in targets]))
@@ -928,13 +972,13 @@ def plan_term(case):
     for k, t in enumerate(case['targets']):
         tgs.append('(mkT %d %d %d %d (mem %d %d) (mem %d %d) false)' % (
             t['id'], t['ps'], t['bp'], t['fp'], t['ps'] * t['bp'], 3 + k, t['ps'] * t['fp'], 101 + k))
-    return ('let r := run_plan (flash_plan %d %s %s [%s] %s) %s in '
+    return ('let r := run_plan_cb %s (flash_plan %d %s %s [%s] %s) %s in '
             'let \'(o, s, tr, cs, rb) := r in '
             '[scode o] ++ trace_obs tr ++ '
             'concat (map (fun T => let T1 := deliver T tr in t_buf T1 ++ t_flash T1 ++ [if t_oob T1 then 1 else 0]) [%s]) ++ '
             '[if rb then 1 else 0; if (match o with SDone => true | _ => false end) && deck_phase %s %s then 1 else 0]'
-            % (platform, cache(0), cache(1), '; '.join(arts), sels, scr, '; '.join(tgs),
-               coqrun.coq_bool(bool(case.get('warm'))), sels))
+            % (coqrun.coq_bool(bool((case.get('cb') or {}).get('progress'))), platform, cache(0), cache(1), '; '.join(arts),
+               sels, scr, '; '.join(tgs), coqrun.coq_bool(bool(case.get('warm'))), sels))
 
 
 def gen_plan_case(rng):
@@ -1009,6 +1053,9 @@ def gen_plan_case(rng):
                                                                              ('deck', 'bcAI:gap8', 'fw'), ('cf1', 'stm32', 'fw')]
         sel = [list(rng.choice(cands)) for _ in range(rng.choice([1, 1, 2]))]
     c['select'] = sel
+    if rng.random() < 0.5:
+        # the UI configuration: progress callback, and a terminate callback that never asks to stop
+        c['cb'] = {'progress': rng.random() < 0.85, 'term': None if rng.random() < 0.5 else []}
     return c
 
 
@@ -1459,6 +1506,11 @@ def check_case(case, fault=None):
                 return fail('image_not_exact', 'flash[start*ps : start*ps+len] == image',
                             {'first_wrong_byte': k, 'flash': got[k], 'image': img[k]},
                             'flashing reported success but the flash does not hold the image')
+    elif code == 6:
+        term = (case.get('cb') or {}).get('term')
+        if not term or not any(term):
+            return fail('spurious_terminate', 'no termination', 'Flashing terminated',
+                        'flashing was terminated although the terminate callback never asked for it')
     else:
         if pol is not None and (fault is None or fault['kind'] in ('late_k', 'foreign') or
                                 (fault['kind'] == 'lost_k' and fault['k'] <= 4)):
@@ -1750,6 +1802,19 @@ def shrink_plan(failure):
 
 
 
+def callback_variants(c, k):
+    """The same case under the UI configurations: as generated, with a progress callback, and (now and then) with a
+    terminate callback that never / at some page asks to stop.  Every clause must hold under each of them."""
+    out = [c]
+    if not c.get('cb'):
+        out.append(dict(c, cb={'progress': True, 'term': None}))
+        if k % 5 == 0:
+            out.append(dict(c, cb={'progress': True, 'term': [False, False, False]}))
+        if k % 7 == 0:
+            out.append(dict(c, cb={'progress': k % 2 == 0, 'term': [False] * (k % 3) + [True]}))
+    return out
+
+
 def oracle(ctx, deep=False):
     fails = []
     n = 0
@@ -1782,14 +1847,15 @@ def oracle(ctx, deep=False):
         if not c.get('script'):
             faults = FAULTS if (k % 7 == 0 or deep) else [None, FAULTS[1 + k % (len(FAULTS) - 1)]]
         for f in faults:
-            n += 1
-            r = check_case(c, f)
-            h = hash_int({'c': c, 'f': f})
-            if h not in seen:
-                seen.add(h)
-                nontriv += nontrivial(c) or f is not None
-            if r is not None and not any(x['class'] == r['class'] for x in fails):
-                fails.append(shrink(r))
+            for c2 in callback_variants(c, k):
+                n += 1
+                r = check_case(c2, f)
+                h = hash_int({'c': c2, 'f': f})
+                if h not in seen:
+                    seen.add(h)
+                    nontriv += nontrivial(c2) or f is not None
+                if r is not None and not any(x['class'] == r['class'] for x in fails):
+                    fails.append(shrink(r))
     return {'evaluations': n, 'failures': fails, 'distinct_nontrivial': nontriv,
             'rule': 'property text on the fake target: frames <= 32 bytes, no command out of range, other target and pages '
                     'outside the image range unchanged, loads cover each page byte exactly once at its offset, refusal '
